@@ -304,7 +304,7 @@ def unlisten_oracle(lines, out):
             if lid in killers:
                 dead.add(killers[lid])
         w = lines[k].split() if k < len(lines) else []
-        if w and w[0] in ("listen", "listen_weak", "listen_c", "listen_u") and w[1] in dead:
+        if w and w[0] in ("listen", "listen_weak", "listen_c", "listen_cw", "listen_u") and w[1] in dead:
             dead.discard(w[1])
     return None
 
@@ -592,7 +592,7 @@ def everything_dropped(lines):
             live.add(w[2])
         elif w[0] == "drop":
             live.discard(w[1])
-        elif w[0] in ("listen", "listen_weak", "listen_c"):
+        elif w[0] in ("listen", "listen_weak", "listen_c", "listen_cw"):
             ls[w[1]] = "on"
         elif w[0] == "unlisten" and w[1] in ls:
             ls[w[1]] = "off"
